@@ -1578,6 +1578,11 @@ def flush_imports(ck: Check, camp, pending: list) -> None:
         if errs:
             m, e = sorted(errs.items())[0]
             mech = (mechs_of(m) or ["runtime_only"])[0]
+            if mech == "runtime_only":
+                # the two findings of the cross-reference campaign, told from the written package (c12_crossref.mechanism)
+                from . import c12_crossref
+
+                mech = c12_crossref.mechanism(files, culprit.get(m)) or c12_crossref.mechanism(files, None) or mech
             camp.hit(f"import_failed:{mech}")
             unresolved = e.startswith(("annotation of ", "type hints of "))
             ck.fail({"oracle": "import_subprocess", "input_kind": kind, **({"clause": "annotation-resolves"} if unresolved else {}), "mechanism": mech}, case,
@@ -1594,6 +1599,10 @@ def flush_imports(ck: Check, camp, pending: list) -> None:
             if exact_key_shared(case, pred, strip(m)):
                 inherited.append("exact_import_key_shared")
             mech = inherited[0] if inherited else "wrong_class_reached"
+            if mech == "wrong_class_reached":
+                from . import c12_crossref
+
+                mech = c12_crossref.mechanism(files, "/".join(strip(m)) + ".py") or c12_crossref.mechanism(files, "/".join((*strip(m), "__init__.py"))) or mech
             camp.hit(f"reach_failed:{mech}")
             ck.fail({"oracle": "use_reaches_target", "input_kind": kind, "mechanism": mech}, case,
                     f"{m.split('.', 1)[-1] if '.' in m else '<root>'}: {items[0]['text']}")
@@ -1869,7 +1878,8 @@ def run(ck: Check) -> None:
         "models of an input tree are told apart by a member of their own (m<k>): which file holds which model is read from the written text, line by line, also for files that do not parse",
         "the order of module paths is the one Python's sorted(key=(len, path), reverse=True) yields (the harness sorts; the theorems only use deepest-first)",
         "the condition of the package-file extra dot is modelled on name lists (importer path is a prefix of the importee path); the code tests it on dotted strings with a trailing '.', which is the same for names without dots",
-        "names of imports: the scoped resolver is modelled for the calls __change_from_import makes (add(path, name) with default flags; Model/Modules.Scope.add, compared with a real ModelResolver and with the recorded calls of every generated module); get_valid_field_name is a parameter of the theorem (identity on the class names met); the `module.Class` spelling of each use and the later passes (__collapse_root_models, __change_imported_model_name) are checked by oracle (5) only",
+        "names of imports: the scoped resolver is modelled for the calls __change_from_import makes (add(path, name) with default flags; Model/Modules.Scope.add, compared with a real ModelResolver and with the recorded calls of every generated module); get_valid_field_name is a parameter of the theorem (identity on the class names met); the `module.Class` / alias spelling of each use and __change_imported_model_name are modelled by Model/CrossRef and compared per recorded call with the real passes (c12_crossref); __collapse_root_models is checked by the oracles only",
+        "what a written use reaches (Model/CrossRef.resolveUse): relative import by Dcg/Py/Import, then attribute-before-submodule over the table of classes each module DEFINES; names a package file binds through its own imports are not in the table (finding C12-attr-shadow, oracle only)",
         "the import block of a module under --collapse-root-models: WHICH appends and removals the passes make is taken from the real run (vlib/importledger records every Imports object of every generate() with --collapse-root-models); the recorded history is checked against C02's ledger model (driver imports.ledger) and the per-use discipline (c12_collapse.uses_discipline); Props/C12 import_line_survives_iff_use_remains is about disciplined histories",
         "oracle (5) tells classes by the set of members their class statement declares: generated documents give every definition a member of its own; references to root models (arrays) and documents with two equal member sets are outside it (counted as reach_skipped)",
         "Python NFKC-normalises identifiers in source text (import statements included) but not the strings given to importlib: the import oracle imports every module by its NFKC-normalised dotted name; NFKC fixes ASCII (checked on all 128 characters each run)",
@@ -1879,12 +1889,13 @@ def run(ck: Check) -> None:
     campaign_module_path(ck, 400 if quick else 4000)
     campaign_aliases(ck, 400 if quick else 4000)
     campaign_e2e(ck, 200 if quick else 3000, 30 if quick else 400, 3 if quick else 4, n_clash=120 if quick else 1500)
-    from . import c12_collapse, c12_trees
+    from . import c12_collapse, c12_crossref, c12_trees
 
+    c12_crossref.campaign(ck, 80 if quick else 2000)
     c12_collapse.campaign_family(ck, 60 if quick else 1500)
     c12_trees.campaign_setter(ck, 400 if quick else 4000)
     c12_trees.campaign_rich_trees(ck, 150 if quick else 2500)
-    ck.search_hooks += [c12_collapse.search_family, search_from_disagreements, c12_trees.search_rich_trees, search_module_names, search_same_short_name]
+    ck.search_hooks += [c12_crossref.search, c12_collapse.search_family, search_from_disagreements, c12_trees.search_rich_trees, search_module_names, search_same_short_name]
     known_findings(ck)
 
 
